@@ -14,6 +14,19 @@ L2: TopKSelector / GreedySelector (real code, in-process; direct calls and throu
 L3: the property on the implementation's outputs: selection never fails / terminates, indices valid
     and distinct, at most max(k, min(k_init, n)) of them, weights positive summing to 1, TopK = the k
     lowest losses, greedy loss no worse than the starting ensemble's, predictions in member order.
+
+Histories: one selector object serves several select() calls (chains of related candidate lists / targets, see
+    `gen_with_history`); EVERY call is judged against the candidates of that call (model `topKHistory` /
+    `greedyHistory`, theorems C20_topk_history / C20_greedy_history; verified checker `checkTopK` per call).
+
+Robustness rule of this file: nothing the implementation returns, stores or omits may crash the harness.
+    * what `select()` returns goes through `_norm_output` (outcome `malformed` -> clause valid-distinct / weights);
+    * the candidates' individual losses are computed by the harness (`_own_losses`), never read from what the
+      selector chose to evaluate;
+    * the recording aggregator never raises on behalf of the implementation (`rec.unobserved` -> the model is not
+      asked, the oracle still judges; the iteration cut-off also counts raw aggregator calls);
+    * public state of OnlineSelector / EnsemblePredictor results is read inside guards that turn an unreadable value
+      into a finding with a stable fingerprint.
 """
 import copy
 import itertools
@@ -80,12 +93,19 @@ class _Rec:
         self._T = None
         self._pending = None
         self._keep = preds  # keeps the ids valid
+        self.calls = 0  # aggregator calls of this select()
+        self.max_calls = (MAX_ITER + 2) * (len(preds) + 1)  # more than MAX_ITER iterations whatever could be recorded
+        self.unobserved = None  # why the trace of this call cannot be reconstructed (L2 is then skipped, L3 still judges)
+
+    def snapshot(self):
+        """the record of the call that just ended (reset() re-binds every container, so a shallow copy keeps them)"""
+        return copy.copy(self)
 
 
 def _make_env(task, preds, k_init_eff):
     import deephyper.ensemble.aggregator as A
     import deephyper.ensemble.loss as Lo
-    from deephyper.ensemble.aggregator._aggregator import Aggregator
+    from deephyper.ensemble.aggregator import Aggregator
 
     rec = _Rec(preds, k_init_eff)
     inner_agg = {"mean": lambda: A.MeanAggregator(), "normal": lambda: A.MixedNormalAggregator(),
@@ -96,29 +116,43 @@ def _make_env(task, preds, k_init_eff):
 
     class RecAgg(Aggregator):
         def aggregate(self, y, weights=None):
-            idx = tuple(rec.ids[id(p)] for p in y)
-            w = None if weights is None else tuple(float(x) for x in weights)
-            if w is not None:
+            # the recording never raises on behalf of the implementation (an exception here would surface as a failure of
+            # select()): what cannot be reconstructed is marked `unobserved`; only the iteration cut-off is raised
+            rec.calls += 1
+            if rec.calls > rec.max_calls:
+                raise _TooLong()
+            key = None
+            try:
+                idx = tuple(rec.ids.get(id(p), -1) for p in y)
+                w = None if weights is None else tuple(float(x) for x in weights)
+            except Exception as e:  # noqa: BLE001
+                idx, w = (-1,), None
+                rec.unobserved = f"aggregator called with unexpected arguments ({type(e).__name__})"
+            if -1 in idx:
+                rec.unobserved = rec.unobserved or "the selector aggregated an object that is not a candidate of this call"
+            elif w is not None and rec.unobserved is None:
                 # exact counts: weights are counts/T with T = previous T or previous T + 1
-                fr = [Fraction(x).limit_denominator(100000) for x in w]
+                try:
+                    fr = [Fraction(x).limit_denominator(100000) for x in w]
+                except (ValueError, OverflowError):
+                    fr = None
                 den = 1
-                for f in fr:
+                for f in fr or []:
                     den = den * f.denominator // gcd(den, f.denominator)
                 prev = rec._T if rec._T is not None else rec.k0 + 1
                 T = prev if prev % den == 0 else prev + 1
-                if T % den != 0:
-                    raise RuntimeError(f"cannot reconstruct the multiset from weights {w} (T={prev})")
-                if rec._T is None or T != rec._T:
-                    rec._T = T
-                    rec.blocks.append(0)
-                    if len(rec.blocks) > MAX_ITER:
-                        raise _TooLong()
-                rec.blocks[-1] += 1
-                key = [[i, int(f * T)] for i, f in zip(idx, fr)]
-            else:
-                key = None
+                if fr is None or len(fr) != len(idx) or T % den != 0:
+                    rec.unobserved = f"cannot reconstruct the multiset of members from the weights {w} (T={prev})"
+                else:
+                    if rec._T is None or T != rec._T:
+                        rec._T = T
+                        rec.blocks.append(0)
+                        if len(rec.blocks) > MAX_ITER:
+                            raise _TooLong()
+                    rec.blocks[-1] += 1
+                    key = [[i, int(f * T)] for i, f in zip(idx, fr)]
             out = inner_agg.aggregate(y, weights)
-            rec._pending = (idx, key, id(out), out)
+            rec._pending = None if rec.unobserved else (idx, key, id(out), out)
             return out
 
     def rec_loss(y_true, y_pred):
@@ -142,6 +176,82 @@ def _make_env(task, preds, k_init_eff):
             return r
 
     return rec, RecAgg(), rec_loss, RecRS, inner_agg, inner_loss
+
+
+def _own_losses(inner_loss, y, preds):
+    """the individual loss of every candidate of THIS call w.r.t. the y of THIS call, computed by the harness with the
+    real loss function — never taken from what the selector chose to evaluate (a selector that scores only some of the
+    candidates, or scores them against something else, must not blind the oracle)"""
+    return [float(np.mean(inner_loss(y, p))) for p in preds]
+
+
+def _is_int(x):
+    return isinstance(x, (int, np.integer)) and not isinstance(x, (bool, np.bool_))
+
+
+def _is_real(x):
+    return isinstance(x, (int, float, np.integer, np.floating)) and not isinstance(x, (bool, np.bool_))
+
+
+def _flat(seq):
+    """a list / tuple / 1-D array -> list of its elements (0-d arrays unwrapped); None if it is not a flat sequence"""
+    if isinstance(seq, np.ndarray):
+        return seq.tolist() if seq.ndim == 1 and not np.ma.isMaskedArray(seq) else None
+    if not isinstance(seq, (list, tuple)):
+        return None
+    return [x.item() if isinstance(x, np.ndarray) and x.ndim == 0 else x for x in seq]
+
+
+def _norm_output(out):
+    """what select() returned -> (indices, weights, problem).  A pair of flat sequences (list, tuple, 1-D array — all
+    are `Sequence[int]` / `Sequence[float]`) of integers / real numbers becomes plain lists of Python ints / floats;
+    a part that is something else is None and `problem` says what was returned.  Never raises."""
+    try:
+        if not isinstance(out, (tuple, list)) or len(out) != 2:
+            return None, None, f"select() returned {_short(out)} instead of (indices, weights)"
+        idx, w = _flat(out[0]), _flat(out[1])
+        problems = []
+        if idx is None or not all(_is_int(i) for i in idx):
+            problems.append(f"indices {_short(out[0])} are not a flat sequence of integers")
+            idx = None
+        else:
+            idx = [int(i) for i in idx]
+        if w is None or not all(_is_real(x) for x in w):
+            problems.append(f"weights {_short(out[1])} are not a flat sequence of numbers")
+            w = None
+        else:
+            w = [float(x) for x in w]
+        return idx, w, "; ".join(problems) or None
+    except Exception as e:  # noqa: BLE001
+        return None, None, f"select() returned an object that cannot be read ({type(e).__name__})"
+
+
+def _short(x, limit=160):
+    try:
+        r = repr(x)
+    except Exception:  # noqa: BLE001
+        r = f"<{type(x).__name__}>"
+    return r if len(r) <= limit else r[:limit] + "…"
+
+
+def _record_output(res, out):
+    """fills outcome / indices / weights of a result from what select() returned"""
+    idx, w, problem = _norm_output(out)
+    if problem:
+        res.update(outcome="malformed", indices=idx, weights=w, problem=problem)
+    else:
+        res.update(outcome="ok", indices=idx, weights=w)
+    return res
+
+
+def _steps_of(task):
+    """the select() calls a task stands for, in call order: its history, then the task itself"""
+    return list(task.get("history") or []) + [{k: v for k, v in task.items() if k != "history"}]
+
+
+def _prefix_task(steps, i):
+    """call number i of a history as a task of its own: judged after the calls before it on the same object"""
+    return dict(steps[i], history=[copy.deepcopy(h) for h in steps[:i]]) if i else dict(steps[i])
 
 
 # --------------------------------------------------------------------------- tasks (y, predictions)
@@ -174,52 +284,64 @@ def build(task):
     return y, [_arr(p["loc"], (S, C), p.get("mask")) for p in task["preds"]]
 
 
+def _gen_pred(rng, task, pool=()):
+    """one more candidate prediction for `task` (its y, S, C, aggregator); `pool`: earlier candidates, sometimes duplicated"""
+    S = task["S"]
+    if task["kind"] == "reg":
+        if pool and rng.random() < 0.2:
+            p = copy.deepcopy(rng.choice(list(pool)))  # identical candidates: argsort / argmin ties
+            p.pop("mask", None)
+        else:
+            noise = task.get("noise", 4)
+            p = {"loc": [t + rng.randint(-noise, noise) / 8 for t in task["y"]]}
+            if task["agg"] == "normal":
+                p["scale"] = [rng.randint(2, 16) / 8 for _ in range(S)]
+    else:
+        C = task["C"]
+        rows = []
+        for s_ in range(S):
+            cuts = sorted(rng.randint(0, 16) for _ in range(C - 1))
+            q = [b - a for a, b in zip([0] + cuts, cuts + [16])]
+            if rng.random() < 0.5:  # lean towards the true class
+                j = task["y"][s_]
+                m = max(range(C), key=lambda c: q[c])
+                q[j], q[m] = q[m], q[j]
+            rows += [v / 16 for v in q]
+        p = {"loc": rows}
+    if task.get("masked"):
+        mk = [rng.random() < 0.35 for _ in range(S)]
+        if all(mk):
+            mk[rng.randrange(S)] = False
+        p["mask"] = mk
+    return p
+
+
 def gen_task(rng, n, like=None):
     """`like`: another task whose kind / aggregator / loss the new one must share (same selector object)"""
     kind = like["kind"] if like else rng.choice(["reg", "reg", "cls"])
     S = rng.choice([1, 2, 3, 4, 6])
     masked = rng.random() < 0.4
-    task = {"kind": kind, "S": S, "masked": masked}
+    task = {"kind": kind, "S": S, "masked": False}
     if kind == "reg":
         task["agg"], task["loss"] = rng.choice([("mean", "se"), ("mean", "se"), ("mean", "ae"), ("normal", "se"),
                                                 ("normal", "nll")])
         if like:
             task["agg"], task["loss"] = like["agg"], like["loss"]
         task["y"] = [rng.randint(-16, 16) / 8 for _ in range(S)]
-        noise = rng.choice([1, 4, 16])
-        pool = []
-        task["preds"] = []
-        for _ in range(n):
-            if pool and rng.random() < 0.2:
-                p = copy.deepcopy(rng.choice(pool))  # identical candidates: argsort / argmin ties
-            else:
-                p = {"loc": [t + rng.randint(-noise, noise) / 8 for t in task["y"]]}
-                if task["agg"] == "normal":
-                    p["scale"] = [rng.randint(2, 16) / 8 for _ in range(S)]
-            pool.append(p)
-            task["preds"].append(p)
+        task["noise"] = rng.choice([1, 4, 16])
     else:
-        C = rng.choice([2, 3, 4])
-        task["C"] = C
+        task["C"] = rng.choice([2, 3, 4])
         task["agg"], task["loss"] = rng.choice([("cat", "zo"), ("cat", "cce"), ("cat", "cce")])
         if like:
             task["agg"], task["loss"] = like["agg"], like["loss"]
-        task["y"] = [rng.randrange(C) for _ in range(S)]
-        task["preds"] = []
-        for _ in range(n):
-            rows = []
-            for s in range(S):
-                cuts = sorted(rng.randint(0, 16) for _ in range(C - 1))
-                p = [b - a for a, b in zip([0] + cuts, cuts + [16])]
-                if rng.random() < 0.5:  # lean towards the true class
-                    j = task["y"][s]
-                    m = max(range(C), key=lambda c: p[c])
-                    p[j], p[m] = p[m], p[j]
-                rows += [v / 16 for v in p]
-            task["preds"].append({"loc": rows})
+        task["y"] = [rng.randrange(task["C"]) for _ in range(S)]
+    task["preds"] = []
+    for _ in range(n):
+        task["preds"].append(_gen_pred(rng, task, task["preds"]))
     if masked and task["loss"] == "nll":
-        task["masked"] = masked = False  # scipy's logpdf ignores masks (NaN losses): outside the selector
+        masked = False  # scipy's logpdf ignores masks (NaN losses): outside the selector
     if masked:
+        task["masked"] = True
         for p in task["preds"]:
             mk = [rng.random() < 0.35 for _ in range(S)]
             if all(mk):
@@ -248,12 +370,53 @@ def gen_compensating(rng, n_extra):
     return task, 2 * pairs
 
 
+_RELATIONS = ("other", "other", "same-size", "same-size", "larger", "permuted", "other-target", "other-target",
+              "appended", "shrunk", "repeat")
+
+
+def _next_step(rng, prev, rel):
+    """the next select() call a selector object is asked to serve, related to the previous one by `rel`"""
+    n = len(prev["preds"])
+    if rel == "same-size":  # other candidates, other target, as many of them (another fold, another search)
+        t = gen_task(rng, n, like=prev)
+    elif rel == "larger":
+        t = gen_task(rng, n + rng.randint(1, 4), like=prev)
+    elif rel in ("permuted", "other-target", "appended", "shrunk", "repeat"):
+        t = copy.deepcopy({k: v for k, v in prev.items() if k != "rel"})
+        if rel == "permuted":  # the same candidates listed in another order
+            for _ in range(4):
+                rng.shuffle(t["preds"])
+                if t["preds"] != prev["preds"]:
+                    break
+        elif rel == "other-target":  # the same candidates scored against another y (of the same length)
+            S = t["S"]
+            if t["kind"] != "reg":
+                t["y"] = [rng.randrange(t["C"]) for _ in range(S)]
+            elif rng.random() < 0.5:
+                t["y"] = [v + rng.choice([-0.25, 0.125, 0.5]) for v in rng.choice(t["preds"])["loc"]]  # near another candidate
+            else:
+                t["y"] = [rng.randint(-16, 16) / 8 for _ in range(S)]
+        elif rel == "appended":  # the list grown by appending (what online selection does)
+            for _ in range(rng.randint(1, 3)):
+                t["preds"].append(_gen_pred(rng, t, t["preds"]))
+        elif rel == "shrunk" and n >= 2:
+            keep = sorted(rng.sample(range(n), rng.randint(1, n - 1)))
+            t["preds"] = [t["preds"][i] for i in keep]
+    else:  # "other": unrelated candidates, any size (smaller, equal or larger)
+        t = gen_task(rng, rng.choice([1, 2, 3, 4, 6, 9]), like=prev)
+    t["rel"] = rel
+    return t
+
+
 def gen_with_history(rng, n):
-    """a task to be selected on a selector object that already served 1..3 other select() calls
-    (other candidate sets: different sizes, plain / masked)"""
-    task = gen_task(rng, n)
-    task["history"] = [gen_task(rng, rng.choice([1, 2, 3, 4, 6, 9]), like=task) for _ in range(rng.randint(1, 3))]
-    return task
+    """a task to be selected on a selector object that already served 1..3 other select() calls.  The calls form a chain:
+    each is derived from the one before it — unrelated candidates of any size, as many / more other candidates, the same
+    candidates permuted, the same candidates against another target, the list grown by appending, a sub-list, the same
+    call again.  (The chain starts from `n` candidates; every call of it is judged, see `_topk_case` / `_greedy_case`.)"""
+    steps = [gen_task(rng, n)]
+    for _ in range(rng.randint(1, 3)):
+        steps.append(_next_step(rng, steps[-1], rng.choice(_RELATIONS)))
+    return dict(steps[-1], history=steps[:-1])
 
 
 def gen_opts(rng, n):
@@ -274,40 +437,39 @@ def gen_opts(rng, n):
 # --------------------------------------------------------------------------- running the real selectors
 
 
-def run_greedy(task, opts, via_online=False):
-    """-> dict(outcome='ok'|'exc'|'toolong', indices, weights, rec, y, preds, ...); `task["history"]`: earlier
-    select() calls made on the same selector object; `opts["verbose"]`: the selector's trace printing (captured)"""
+def run_greedy_steps(steps, opts):
+    """every select() call of `steps` on ONE GreedySelector object -> one result per call:
+    dict(outcome='ok'|'malformed'|'exc'|'toolong', indices, weights, rec (the record of that call), y, preds, losses
+    (the candidates' own losses, computed by the harness), ...); `opts["verbose"]`: the selector's trace printing (captured)"""
     import contextlib
     import io
 
     from deephyper.ensemble.selector import GreedySelector
 
-    y, preds = build(task)
-    res = {"y": y, "preds": preds}
-    n = len(preds)
-    rec, agg, loss, RS, inner_agg, inner_loss = _make_env(task, preds, min(opts["k_init"], n))
-    res.update(rec=rec, inner_agg=inner_agg, inner_loss=inner_loss)
+    built = [build(t) for t in steps]
+    rec, agg, loss, RS, inner_agg, inner_loss = _make_env(steps[0], built[0][1], min(opts["k_init"], len(built[0][1])))
     kw = {k: opts[k] for k in GREEDY_DEFAULTS}
     sel = GreedySelector(loss, agg, random_state=RS(opts.get("seed", 0)), verbose=bool(opts.get("verbose")), **kw)
+    out = []
     with contextlib.redirect_stdout(io.StringIO()):
-        for h in task.get("history") or []:  # earlier select() calls on the same selector object
-            hy, hp = build(h)
-            rec.reset(hp, min(opts["k_init"], len(hp)))
+        for y, preds in built:
+            res = {"y": y, "preds": preds, "inner_agg": inner_agg, "inner_loss": inner_loss,
+                   "losses": _own_losses(inner_loss, y, preds)}
+            rec.reset(preds, min(opts["k_init"], len(preds)))
             try:
-                sel.select(hy, hp)
-            except Exception:  # noqa: BLE001 - an earlier call that failed / was cut off is part of the history too
-                pass
-        rec.reset(preds, min(opts["k_init"], n))
-        try:
-            idx, w = sel.select(y, preds)
-        except _TooLong:
-            res["outcome"] = "toolong"
-            return res
-        except Exception as e:  # noqa: BLE001
-            res.update(outcome="exc", exc=f"{type(e).__name__}: {str(e)[:160]}")
-            return res
-    res.update(outcome="ok", indices=idx, weights=w)
-    return res
+                _record_output(res, sel.select(y, preds))
+            except _TooLong:
+                res["outcome"] = "toolong"
+            except Exception as e:  # noqa: BLE001 - a call that failed / was cut off is part of the history too
+                res.update(outcome="exc", exc=f"{type(e).__name__}: {str(e)[:160]}")
+            res["rec"] = rec.snapshot()
+            out.append(res)
+    return out
+
+
+def run_greedy(task, opts, via_online=False):
+    """the last call of `task` (after the earlier select() calls of `task["history"]` on the same selector object)"""
+    return run_greedy_steps(_steps_of(task), opts)[-1]
 
 
 def _ens_loss(res, indices, weights):
@@ -318,7 +480,9 @@ def _ens_loss(res, indices, weights):
 def greedy_req(task, opts, res, pre=False):
     rec = res["rec"]
     n = len(res["preds"])
-    losses = [rec.member_loss.get(i) for i in range(n)]
+    if rec.unobserved:
+        return None
+    losses = res["losses"] if "losses" in res else [rec.member_loss.get(i) for i in range(n)]
     if any(v is None or not np.isfinite(v) for v in losses):
         return None
     order = [int(i) for i in np.argsort(losses)]
@@ -343,10 +507,12 @@ def greedy_compare(opts, res, rep):
         return None if m == "outOfFuel" else f"impl still looping after {MAX_ITER} iterations, model: {m}"
     if res["outcome"] == "exc":
         return None if m in ("emptyEnsemble", "allNaN") else f"impl raised {res['exc']}, model: {m} {rep['indices']}"
+    if res["outcome"] == "malformed":
+        return f"impl: {res['problem']}, model: {m} {rep['indices']}"
     if m != "ok":
         return f"impl returned {res['indices']}, model: {m}"
     near = rep["margin"] is not None and float(unrat(rep["margin"])) < 1e-12
-    if [int(i) for i in res["indices"]] != rep["indices"]:
+    if list(res["indices"]) != rep["indices"]:
         return None if near else f"indices: impl {res['indices']}, model {rep['indices']}"
     mw = [float(unrat(v)) for v in rep["weights"]]
     if len(mw) != len(res["weights"]) or any(abs(a - b) > 1e-12 for a, b in zip(res["weights"], mw)):
@@ -406,16 +572,20 @@ def _greedy_oracle(task, opts, res):
         return [("terminates", f"more than {MAX_ITER} greedy iterations (ensemble of {res['rec']._T} non-unique members)")]
     idx, w = res["indices"], res["weights"]
     fails = []
-    if not all(isinstance(i, (int, np.integer)) and 0 <= i < n for i in idx) or len(set(idx)) != len(idx) or not idx:
+    if idx is None:
+        fails.append(("valid-distinct", res["problem"]))
+    elif not all(0 <= i < n for i in idx) or len(set(idx)) != len(idx) or not idx:
         fails.append(("valid-distinct", f"indices {idx} for {n} candidates"))
     bound = max(opts["k"], min(opts["k_init"], n))
-    if len(idx) > bound:
+    if idx is not None and len(idx) > bound:
         fails.append(("at-most-k", f"{len(idx)} members, bound max(k, min(k_init, n)) = {bound}"))
-    if len(w) != len(idx) or not all(x > 0 for x in w) or abs(sum(w) - 1) > 1e-9:
+    if w is None:
+        fails.append(("weights", res["problem"]))
+    elif (idx is not None and len(w) != len(idx)) or not all(x > 0 for x in w) or not abs(sum(w) - 1) <= 1e-9:
         fails.append(("weights", f"weights {w}"))
     # the starting ensemble, determined independently of what the selector computed: the min(k_init, n) candidates of
-    # lowest individual loss (np.argsort of the individual losses), aggregated without weights
-    ml = [res["rec"].member_loss.get(i) for i in range(n)]
+    # lowest individual loss (np.argsort of the candidates' own losses, evaluated by the harness), aggregated without weights
+    ml = res["losses"] if "losses" in res else [res["rec"].member_loss.get(i) for i in range(n)]
     if not fails and all(v is not None and np.isfinite(v) for v in ml):
         init = [int(i) for i in np.argsort(ml)[: opts["k_init"]]]
         unchanged = sorted(idx) == sorted(init) and max(w) - min(w) < 1e-15
@@ -483,51 +653,91 @@ def shrink_greedy(task, opts, clause):
 # --------------------------------------------------------------------------- top-k
 
 
-def run_topk(task, k):
+def run_topk_steps(steps, k):
+    """every select() call of `steps` on ONE TopKSelector(k) object -> one result per call: dict(outcome='ok'|'malformed'|
+    'exc', indices, weights, n, losses (the candidates' own losses w.r.t. the y of that call, computed by the harness),
+    scored (how many candidates the selector itself scored during the call))"""
     from deephyper.ensemble.selector import TopKSelector
 
-    y, preds = build(task)
-    rec, _, loss, _, _, _ = _make_env(task, preds, 0)
+    built = [build(t) for t in steps]
+    rec, _, loss, _, _, inner_loss = _make_env(steps[0], built[0][1], 0)
     sel = TopKSelector(loss, k=k)
-    for h in task.get("history") or []:
-        hy, hp = build(h)
-        rec.reset(hp, 0)
+    out = []
+    for y, preds in built:
+        res = {"n": len(preds), "losses": _own_losses(inner_loss, y, preds)}
+        rec.reset(preds, 0)
         try:
-            sel.select(hy, hp)
-        except Exception:  # noqa: BLE001
-            pass
-    rec.reset(preds, 0)
-    try:
-        idx, w = sel.select(y, preds)
-    except Exception as e:  # noqa: BLE001
-        return {"outcome": "exc", "exc": f"{type(e).__name__}: {str(e)[:160]}", "rec": rec, "n": len(preds)}
-    return {"outcome": "ok", "indices": idx, "weights": w, "rec": rec, "n": len(preds)}
+            _record_output(res, sel.select(y, preds))
+        except Exception as e:  # noqa: BLE001 - a call that failed is part of the history too
+            res.update(outcome="exc", exc=f"{type(e).__name__}: {str(e)[:160]}")
+        res["rec"] = rec.snapshot()
+        res["scored"] = len(res["rec"].member_loss)
+        out.append(res)
+    return out
+
+
+def run_topk(task, k):
+    """the last call of `task` (after the earlier select() calls of `task["history"]` on the same selector object)"""
+    return run_topk_steps(_steps_of(task), k)[-1]
 
 
 def topk_oracle(res, k, task=None):
+    """-> list of (clause, detail) for one call; `task` with a history: also compared with the same call on a fresh selector"""
     pre = []
     if task is not None and task.get("history"):
         fresh = run_topk(dict(task, history=None), k)
         if (fresh["outcome"], fresh.get("indices"), fresh.get("weights")) != (res["outcome"], res.get("indices"), res.get("weights")):
-            pre = [("reuse-independent", f"reused selector: {res.get('indices')}; fresh selector: {fresh.get('indices')}")]
+            pre = [("reuse-independent", f"reused selector: {res['outcome']} {res.get('indices')}; fresh selector: "
+                                         f"{fresh['outcome']} {fresh.get('indices')}")]
     if res["outcome"] == "exc":
         return pre + [("never-fails", res["exc"])]
     return pre + _topk_oracle(res, k)
 
 
 def _topk_oracle(res, k):
-    n, idx = res["n"], res["indices"]
-    losses = [res["rec"].member_loss[i] for i in range(n)]
+    """the TopK clause on what the call returned, against the candidates' own losses (never the selector's own scoring:
+    a selector that scored only some candidates of this call, or none, is judged like any other)"""
+    n, idx, w, losses = res["n"], res["indices"], res["weights"], res["losses"]
     fails = []
-    if not all(isinstance(i, (int, np.integer)) and 0 <= i < n for i in idx) or len(set(idx)) != len(idx):
-        fails.append(("valid-distinct", f"indices {idx}"))
+    if idx is None:
+        fails.append(("valid-distinct", res["problem"]))
+    elif not all(0 <= i < n for i in idx) or len(set(idx)) != len(idx):
+        fails.append(("valid-distinct", f"indices {idx} for {n} candidates"))
     elif len(idx) != min(k, n):
         fails.append(("k-lowest", f"{len(idx)} members selected, expected min(k, n) = {min(k, n)}"))
+    elif not all(np.isfinite(v) for v in losses):
+        pass  # a NaN loss has no rank (outside the generator: every member has an unmasked row)
     elif idx and max(losses[i] for i in idx) > min([losses[j] for j in range(n) if j not in idx] or [np.inf]):
-        fails.append(("k-lowest", f"selected {idx} but losses are {losses}"))
-    if len(res["weights"]) != len(idx) or not all(x > 0 for x in res["weights"]):
-        fails.append(("weights", f"weights {res['weights']}"))
+        fails.append(("k-lowest", f"selected {idx} but the candidates' losses are {losses}"))
+    if w is None:
+        fails.append(("weights", res["problem"]))
+    elif (idx is not None and len(w) != len(idx)) or not all(x > 0 for x in w):
+        fails.append(("weights", f"weights {w}"))
     return fails
+
+
+def _topk_clauses_failing(steps, k):
+    """clauses failing at the LAST call of `steps` served by one selector object (used by the shrinker; never raises)"""
+    try:
+        return {c for c, _ in topk_oracle(run_topk_steps(steps, k)[-1], k, _prefix_task(steps, len(steps) - 1))}
+    except Exception:  # noqa: BLE001
+        return set()
+
+
+def shrink_topk(steps, k, clause):
+    """-> (steps', reused): fewer earlier calls that still make `clause` fail at the last one; reused = False when the
+    call fails `clause` on a fresh selector too (the history is then dropped)"""
+    steps = [copy.deepcopy(t) for t in steps]
+    if len(steps) > 1 and clause != "reuse-independent" and clause in _topk_clauses_failing(steps[-1:], k):
+        return steps[-1:], False
+    i = 0
+    while len(steps) > 2 and i < len(steps) - 1:
+        t2 = steps[:i] + steps[i + 1:]
+        if clause in _topk_clauses_failing(t2, k):
+            steps = t2
+        else:
+            i += 1
+    return steps, len(steps) > 1
 
 
 # --------------------------------------------------------------------------- EnsemblePredictor ordering
@@ -600,7 +810,12 @@ def run_predictor(finish_order, mode="list", loader=False, fail=None, evaluator=
 
     class Spy(Callback):
         def on_done(self, job):
-            seen.append((str(job.id), int(getattr(job.args["predictor"], "i"))))
+            # never raises inside the evaluator: a job whose member cannot be identified is recorded as None (the
+            # completion order is then unobservable and the model is not asked)
+            try:
+                seen.append((str(job.id), int(getattr(job.args["predictor"], "i"))))
+            except Exception:  # noqa: BLE001
+                seen.append((str(getattr(job, "id", "?")), None))
 
     def members_of(order, loader_, fail_):
         key, gates = None, []
@@ -624,11 +839,21 @@ def run_predictor(finish_order, mode="list", loader=False, fail=None, evaluator=
         X = np.zeros((1, 1))
         try:
             if mode_ == "predict":
-                return {"predict": [float(v) for v in np.asarray(target.predict(X)).reshape(-1)]}
-            return {"returned": [int(np.asarray(a).reshape(-1)[0]) for a in target.predictions_from_predictors(X, ms)]}
+                return {"raw_predict": target.predict(X)}
+            return {"raw_returned": target.predictions_from_predictors(X, ms)}
         finally:
             for g in gates:
                 g.set()
+
+    def decode(out):
+        """the returned predictions -> member numbers / cells; what cannot be decoded is `malformed` (the members return
+        arrays identifying them: anything else is not a member's prediction), never an exception of the harness"""
+        try:
+            if "raw_predict" in out:
+                return {"predict": [float(v) for v in np.asarray(out["raw_predict"], dtype=float).reshape(-1)]}
+            return {"returned": [int(np.asarray(a, dtype=float).reshape(-1)[0]) for a in out["raw_returned"]]}
+        except Exception as e:  # noqa: BLE001
+            return {"malformed": f"{_short(out.get('raw_predict', out.get('raw_returned')))} ({type(e).__name__})"}
 
     weights = [float(2 ** i) for i in range(n)]
     res = {"seen": seen, "weights": weights}
@@ -644,9 +869,12 @@ def run_predictor(finish_order, mode="list", loader=False, fail=None, evaluator=
             except Exception:  # noqa: BLE001 - an earlier call that failed is part of the history too
                 pass
         del seen[:]
-        res.update(outcome="ok", **one_call(ens, finish_order, mode, loader, fail, via_copy))
+        raw = one_call(ens, finish_order, mode, loader, fail, via_copy)
     except Exception as e:  # noqa: BLE001
         res.update(outcome="exc", exc=f"{type(e).__name__}: {str(e)[:200]}", exc_type=type(e).__name__)
+        return res
+    dec = decode(raw)
+    res.update(outcome="malformed" if "malformed" in dec else "ok", **dec)
     return res
 
 
@@ -654,8 +882,20 @@ def run_predictor(finish_order, mode="list", loader=False, fail=None, evaluator=
 
 
 def _greedy_case(ck, d, task, opts, label="greedy", res=None, verbose=False):
+    """one select() call — or, for a task with a history, EVERY call of the history on one selector object: call i is
+    judged (L2 model, L3 clauses, same result as on a fresh selector) as the case `history = calls before i, task = call i`"""
+    if res is None and task.get("history"):
+        steps = _steps_of(task)
+        for i, r in enumerate(run_greedy_steps(steps, opts)):
+            if i:
+                ck.count(f"{label}:reused-selector:relation={steps[i].get('rel', 'other')}")
+            _greedy_one(ck, d, _prefix_task(steps, i), opts, label, r, verbose)
+        return
+    _greedy_one(ck, d, task, opts, label, res or run_greedy(task, opts), verbose)
+
+
+def _greedy_one(ck, d, task, opts, label, res, verbose=False):
     n = len(task["preds"])
-    res = res or run_greedy(task, opts)
     case = {"kind": "greedy", "task": task, "opts": opts}
     nontriv = n >= 2 and res["outcome"] == "ok" and len(res["rec"].blocks) >= 1
     ck.case(case, nontrivial=nontriv)
@@ -670,9 +910,12 @@ def _greedy_case(ck, d, task, opts, label="greedy", res=None, verbose=False):
     req = greedy_req(task, opts, res)
     dis = None
     if req is None:
-        ck.count(f"{label}:non-finite-member-loss(skipped)")
+        ck.count(f"{label}:" + ("trace-not-reconstructible(model not asked)" if res["rec"].unobserved
+                                else "non-finite-member-loss(skipped)"))
+        if verbose and res["rec"].unobserved:
+            print("replay:", {"model": "not asked", "why": res["rec"].unobserved})
     else:
-        slim = {k: res.get(k) for k in ("outcome", "exc", "indices", "weights")}
+        slim = {k: res.get(k) for k in ("outcome", "exc", "indices", "weights", "problem")}
         slim["rec"] = types.SimpleNamespace(blocks=list(res["rec"].blocks))
 
         def on_reply(rep, case=case, opts=opts, slim=slim):
@@ -703,8 +946,7 @@ def _greedy_case(ck, d, task, opts, label="greedy", res=None, verbose=False):
     # well-formedness of the returned (indices, weights): decided by the verified checker `checkGreedyOut` run by the
     # driver on the real output (C20_checker); the Python statement is the cross-check (disagreement = mismatch)
     wf = [(c, dt) for c, dt in fails if c in _WF_CLAUSES]
-    sendable = res["outcome"] == "ok" and all(isinstance(i, (int, np.integer)) and i >= 0 for i in res["indices"]) and all(
-        isinstance(x, float) and np.isfinite(x) for x in res["weights"])
+    sendable = res["outcome"] == "ok" and all(i >= 0 for i in res["indices"]) and all(np.isfinite(x) for x in res["weights"])
     if sendable:
         def on_check(rep, wf=wf):
             ck.count(f"{label}:verified-checker:{'pass' if rep['spec'] else 'fail'}")
@@ -716,7 +958,7 @@ def _greedy_case(ck, d, task, opts, label="greedy", res=None, verbose=False):
                     report(clause, detail)
 
         d.ask({"op": "check_greedy", "tol": rat(1e-9), "n": n, "bound": max(opts["k"], min(opts["k_init"], n)),
-               "indices": [int(i) for i in res["indices"]], "weights": [rat(x) for x in res["weights"]]}, on_check)
+               "indices": list(res["indices"]), "weights": [rat(x) for x in res["weights"]]}, on_check)
     for clause, detail in fails:
         if clause == "inconclusive":
             ck.count(f"{label}:inconclusive-long-early-stopping-run")
@@ -727,69 +969,146 @@ def _greedy_case(ck, d, task, opts, label="greedy", res=None, verbose=False):
 
 
 def _topk_case(ck, d, task, k, verbose=False):
-    res = run_topk(task, k)
-    n = res["n"]
-    case = {"kind": "topk", "task": task, "k": k}
-    ck.case(case, nontrivial=n >= 2 and k < n)
-    ck.count(f"topk:outcome:{res['outcome']}")
-    ck.count("topk:" + ("k<n" if k < n else "k>=n"))
-    dis = None
-    if res["outcome"] == "ok" and not all(np.isfinite(res["rec"].member_loss.get(i, np.nan)) for i in range(n)):
+    """every select() call of the task's history (then the task itself) on ONE TopKSelector(k) object; call i is judged as
+    the case `history = calls before i, task = call i`.  L2: the whole history goes to the model of the object
+    (`topKHistory`, C20_topk_history: the answer to a call is a function of that call alone); L3: the verified checker
+    `checkTopK` on the real answer of every call against the candidates' own losses of THAT call (computed by the harness),
+    cross-checked by the Python statement; plus never-fails and reuse-independent (same answer as a fresh selector)."""
+    steps = _steps_of(task)
+    results = run_topk_steps(steps, k)
+    if len(steps) > 1:
+        ck.count(f"topk:reused-selector:earlier-calls={len(steps) - 1}")
+    per = []
+    for i, res in enumerate(results):
+        t_i = _prefix_task(steps, i)
+        n = res["n"]
+        case = {"kind": "topk", "task": t_i, "k": k}
+        ck.case(case, nontrivial=n >= 2 and k < n)
+        ck.count(f"topk:outcome:{res['outcome']}")
+        ck.count("topk:" + ("k<n" if k < n else "k>=n"))
+        if i:
+            ck.count(f"topk:reused-selector:relation={steps[i].get('rel', 'other')}")
+            ck.count("topk:reused-selector:" + ("shorter-list" if n < results[i - 1]["n"] else "same-length-list"
+                                                if n == results[i - 1]["n"] else "longer-list"))
+        if res["scored"] != n:
+            ck.count("topk:selector-did-not-score-every-candidate-of-the-call")
+        fails = topk_oracle(res, k, t_i)
+        if verbose:
+            print("replay:", {"call": i, "impl": {k_: res.get(k_) for k_ in ("outcome", "exc", "problem", "indices", "weights")},
+                              "own_losses": res["losses"], "oracle": fails or "holds"})
+        per.append((case, res, fails))
+
+    def tfail(i, clause, detail):
+        n = results[i]["n"]
+        st2, reused = shrink_topk(steps[: i + 1], k, clause) if i else (steps[:1], False)
+        tags = ["candidates=1" if n == 1 else "candidates<k" if n < k else "", "reused-selector" if reused else ""]
+        ck.fail(f"C20|{clause}|TopKSelector.select|" + ",".join(x for x in tags if x), f"TopKSelector: {clause} fails",
+                {"kind": "topk", "task": _prefix_task(st2, len(st2) - 1), "k": k}, detail)
+
+    finite = all(np.isfinite(v) for _, res, _ in per for v in res["losses"])
+    if not finite:
         ck.count("topk:non-finite-member-loss(model not asked)")
-    elif res["outcome"] == "ok":
-        losses = [res["rec"].member_loss[i] for i in range(n)]
-        def on_reply(rep, case=case, res=res):
+        for i, (_, _, fails) in enumerate(per):
+            for clause, detail in fails:
+                tfail(i, clause, detail)
+        return
+
+    def sendable(res):
+        return (res["outcome"] in ("ok", "malformed") and res["indices"] is not None and res["weights"] is not None
+                and all(j >= 0 for j in res["indices"]) and all(np.isfinite(x) for x in res["weights"]))
+
+    def on_reply(rep):
+        if rep["all"] is not None:
+            ck.count(f"topk:verified-history-checker:{'pass' if rep['all'] else 'fail'}")
+        for i, ((case, res, fails), st) in enumerate(zip(per, rep["steps"])):
+            ck.count("topk:argsort-stable" if st["stable"] else "topk:argsort-not-stable")
             dis = None
-            ck.count("topk:argsort-stable" if rep["stable"] else "topk:argsort-not-stable")
-            if not rep["order_ok"]:
+            if not st["order_ok"]:
                 dis = "np.argsort returned an order that is not a loss-sorted permutation"
-            elif rep["sel"] != [int(i) for i in res["indices"]] or [float(unrat(v)) for v in rep["weights"]] != list(res["weights"]):
-                dis = f"impl {res['indices']} {res['weights']}, model {rep['sel']} {rep['weights']}"
+            elif res["outcome"] == "ok" and (st["sel"] != res["indices"] or [float(unrat(v)) for v in st["weights"]] != res["weights"]):
+                dis = (f"call {i} of the history on one selector object: impl {res['indices']} {res['weights']}, "
+                       f"model {st['sel']} {st['weights']}")
             if verbose:
-                print("replay:", {"model": rep, "model_vs_impl": dis or "agree"})
+                print("replay:", {"call": i, "model": st, "model_vs_impl": dis or "agree"})
             if dis:
                 ck.mismatch(case, dis)
+            spec = [(c, dt) for c, dt in fails if c in _TOPK_CLAUSES]
+            if st["spec"] is not None:
+                # the TopK clause is decided by the verified checker `checkTopK` (C20_checker) on the real answer of this
+                # call; the Python statement is the cross-check (disagreement = mismatch)
+                ck.count(f"topk:verified-checker:{'pass' if st['spec'] else 'fail'}")
+                if bool(st["spec"]) != (not spec):
+                    ck.mismatch(case, f"verified checker checkTopK = {st['spec']} but the Python oracle says {spec or 'k lowest'}")
+                if not st["spec"]:
+                    for clause, detail in (spec or [("k-lowest", f"checkTopK = false for {res['indices']} {res['weights']}")]):
+                        tfail(i, clause, detail)
+            for clause, detail in fails:
+                if clause in _TOPK_CLAUSES and st["spec"] is not None:
+                    continue
+                tfail(i, clause, detail)
 
-        d.ask({"op": "topk", "losses": [rat(v) for v in losses], "order": [int(i) for i in np.argsort(losses)], "k": k}, on_reply)
-    fails = topk_oracle(res, k, task)
-    if verbose:
-        print("replay:", {"impl": {k_: res.get(k_) for k_ in ("outcome", "exc", "indices", "weights")}, "oracle": fails or "holds"})
-
-    def tfail(clause, detail):
-        ck.fail(f"C20|{clause}|TopKSelector.select|" + ("candidates=1" if n == 1 else "candidates<k" if n < k else "")
-                + (",reused-selector" if clause == "reuse-independent" else ""),
-                f"TopKSelector: {clause} fails", case, detail)
-
-    spec = [(c, dt) for c, dt in fails if c in _TOPK_CLAUSES]
-    sendable = (res["outcome"] == "ok" and all(isinstance(i, (int, np.integer)) and i >= 0 for i in res["indices"])
-                and all(np.isfinite(float(x)) for x in res["weights"])
-                and all(np.isfinite(res["rec"].member_loss.get(i, np.nan)) for i in range(n)))
-    if sendable:
-        def on_check(rep, spec=spec):
-            ck.count(f"topk:verified-checker:{'pass' if rep['spec'] else 'fail'}")
-            if bool(rep["spec"]) != (not spec):
-                ck.mismatch(case, f"verified checker checkTopK = {rep['spec']} but the Python oracle says {spec or 'k lowest'}")
-            if not rep["spec"]:
-                for clause, detail in (spec or [("k-lowest", f"checkTopK = false for {res['indices']}")]):
-                    tfail(clause, detail)
-
-        d.ask({"op": "check_topk", "losses": [rat(res["rec"].member_loss[i]) for i in range(n)], "k": k,
-               "indices": [int(i) for i in res["indices"]], "weights": [rat(float(x)) for x in res["weights"]]}, on_check)
-    for clause, detail in fails:
-        if clause in _TOPK_CLAUSES and sendable:
-            continue
-        ck.fail(f"C20|{clause}|TopKSelector.select|" + ("candidates=1" if n == 1 else "candidates<k" if n < k else "")
-                + (",reused-selector" if clause == "reuse-independent" else ""),
-                f"TopKSelector: {clause} fails", case, detail)
+    d.ask({"op": "topk_history", "k": k,
+           "calls": [{"losses": [rat(v) for v in res["losses"]], "order": [int(j) for j in np.argsort(res["losses"])]}
+                     for _, res, _ in per],
+           "outs": [{"indices": list(res["indices"]), "weights": [rat(x) for x in res["weights"]]} if sendable(res) else None
+                    for _, res, _ in per]}, on_reply)
 
 
-def _online_case(ck, d, task, opts, fail_at, verbose=False):
-    """OnlineSelector.on_done after every finished job (the first call sees one candidate)"""
-    from deephyper.ensemble.selector import GreedySelector, OnlineSelector
-
+def _online_jobs(task, fail_at):
+    """the finished jobs of an online session, in completion order: (position, job, sub-task of the successful jobs so far)"""
     y, preds = build(dict(task, masked=False, preds=[{k: v for k, v in p.items() if k != "mask"} for p in task["preds"]]))
     S = task["S"]
-    case = {"kind": "online", "task": task, "opts": opts, "fail_at": fail_at}
+    for j, p in enumerate(task["preds"]):
+        if j in fail_at:
+            yield j, types.SimpleNamespace(id=f"0.{j}", output={"objective": "F_failed"}), None
+            continue
+        rows = [s_ for s_ in range(S) if not (p.get("mask") or [False] * S)[s_]]
+        job = types.SimpleNamespace(id=f"0.{j}", output={"objective": 0.0, "online_selector": {"y_pred": preds[j][rows], "y_pred_idx": rows}})
+        yield j, job, dict(task, preds=[q for i, q in enumerate(task["preds"][:j + 1]) if i not in fail_at])
+
+
+def _stored_predictions_problem(online, sub):
+    """every finished job's stored prediction must be valid exactly on the job's own y_pred_idx, with its own values there
+    -> None | text.  Reads public attributes of the implementation only; anything unreadable is a finding, not a crash."""
+    try:
+        _, exp = build(sub)
+        got = list(online.y_predictors)
+        if len(got) != len(exp):
+            return f"bookkeeping: y_predictors holds {len(got)} entries after {len(exp)} finished jobs"
+        for k_, (got_a, exp_a) in enumerate(zip(got, exp)):
+            gm, em = np.ma.getmaskarray(got_a), np.ma.getmaskarray(exp_a)
+            if gm.shape != em.shape or (gm != em).any():
+                return (f"finished job #{k_}: valid samples {np.nonzero(~gm.reshape(len(gm), -1).all(axis=1))[0].tolist()}, "
+                        f"its y_pred_idx {np.nonzero(~em.reshape(len(em), -1).all(axis=1))[0].tolist()}")
+            if not np.array_equal(np.ma.getdata(got_a)[~em], np.ma.getdata(exp_a)[~em]):
+                return f"finished job #{k_}: stored values differ from its own predictions on its own indices"
+    except Exception as e:  # noqa: BLE001
+        return f"bookkeeping: y_predictors cannot be read as one masked prediction per finished job ({type(e).__name__}: {str(e)[:120]})"
+    return None
+
+
+def _run_prior_sessions(make_online, prior):
+    """earlier online sessions served by the SAME inner selector object (another search / another validation set reusing
+    the selector); their own judgement happens where they are generated as sessions of their own"""
+    for ses in prior or []:
+        try:
+            online = make_online(ses["task"])
+            for _, job, _ in _online_jobs(ses["task"], set(ses.get("fail_at", []))):
+                online.on_done(job)
+        except Exception:  # noqa: BLE001 - an earlier session that failed is part of the history too
+            pass
+
+
+def _online_case(ck, d, task, opts, fail_at, prior=None, verbose=False):
+    """OnlineSelector.on_done after every finished job (the first call sees one candidate); `prior`: earlier sessions
+    ({"task", "fail_at"}) that the same GreedySelector object served through other OnlineSelector objects"""
+    from deephyper.ensemble.selector import GreedySelector, OnlineSelector
+
+    case = {"kind": "online", "task": task, "opts": opts, "fail_at": sorted(fail_at)}
+    if prior:
+        case["prior"] = prior
+        ck.count(f"online:reused-selector:earlier-sessions={len(prior)}")
+    tag = "reused-selector" if prior else ""
     holder = {}
 
     class Sel(GreedySelector):
@@ -798,116 +1117,135 @@ def _online_case(ck, d, task, opts, fail_at, verbose=False):
             rec, agg, loss, RS, inner_agg, inner_loss = _make_env(task, y_predictors, min(opts["k_init"], len(y_predictors)))
             self.loss_func, self.aggregator = loss, agg
             self.random_state = RS(opts.get("seed", 0))
-            holder.update(rec=rec, inner_agg=inner_agg, inner_loss=inner_loss, y=y_, preds=list(y_predictors))
+            holder.update(rec=rec, inner_agg=inner_agg, inner_loss=inner_loss, y=y_, preds=list(y_predictors),
+                          losses=_own_losses(inner_loss, y_, y_predictors))
             return super().select(y_, y_predictors)
 
     kw = {k: opts[k] for k in GREEDY_DEFAULTS}
     proto = types.SimpleNamespace(predictors=None, weights=None, tag="ensemble-prototype")
-    online = OnlineSelector(y, Sel(None, None, **kw), proto, lambda job_id: ("loaded", job_id))
+    selector = Sel(None, None, **kw)
+
+    def make_online(t):
+        return OnlineSelector(build(dict(t, masked=False, preds=[]))[0], selector, proto, lambda job_id: ("loaded", job_id))
+
+    _run_prior_sessions(make_online, prior)
+    online = make_online(task)
     n_ok = 0
-    for j, p in enumerate(task["preds"]):
-        if j in fail_at:
-            online.on_done(types.SimpleNamespace(id=f"0.{j}", output={"objective": "F_failed"}))
+    for j, job, sub in _online_jobs(task, fail_at):
+        if sub is None:
+            try:
+                online.on_done(job)
+            except Exception as e:  # noqa: BLE001
+                ck.fail(f"C20|never-fails|OnlineSelector.on_done|failed-job{',' + tag if tag else ''}",
+                        "OnlineSelector: on_done raises on a failed job", case, f"{type(e).__name__}: {str(e)[:160]}")
+                return
             continue
-        rows = [s for s in range(S) if not (p.get("mask") or [False] * S)[s]]
-        yp = preds[j][rows]
-        job = types.SimpleNamespace(id=f"0.{j}", output={"objective": 0.0, "online_selector": {"y_pred": yp, "y_pred_idx": rows}})
         n_ok += 1
-        sub = dict(task, preds=[q for i, q in enumerate(task["preds"][:j + 1]) if i not in fail_at])
+        holder.clear()
         try:
             (online.on_done_other if j % 3 == 2 else online.on_done)(job)  # jobs finished by other processes: same path
-            res = dict(holder, outcome="ok", indices=online.selected_predictors_indexes,
-                       weights=online.selected_predictors_weights)
+            res = _record_output(dict(holder), (online.selected_predictors_indexes, online.selected_predictors_weights))
         except _TooLong:
             res = dict(holder, outcome="toolong")
         except Exception as e:  # noqa: BLE001
-            if "rec" not in holder:
-                raise
             res = dict(holder, outcome="exc", exc=f"{type(e).__name__}: {str(e)[:160]}")
-        if len(online.y_predictors) != n_ok:
-            ck.fail("C20|online-bookkeeping|OnlineSelector.on_done|", "y_predictors does not hold one entry per finished job", case)
-        # judged independently of what the callback stored: every finished job's prediction is valid exactly on its own
-        # y_pred_idx (with its own values there), and the selection is the one a direct select() makes on these arrays
-        _, exp = build(sub)
-        bad = None
-        for k_, (got_a, exp_a) in enumerate(zip(online.y_predictors, exp)):
-            gm, em = np.ma.getmaskarray(got_a), np.ma.getmaskarray(exp_a)
-            if gm.shape != em.shape or (gm != em).any():
-                bad = (f"finished job #{k_}: valid samples {np.nonzero(~gm.reshape(len(gm), -1).all(axis=1))[0].tolist()}, "
-                       f"its y_pred_idx {np.nonzero(~em.reshape(len(em), -1).all(axis=1))[0].tolist()}")
-                break
-            if not np.array_equal(np.ma.getdata(got_a)[~em], np.ma.getdata(exp_a)[~em]):
-                bad = f"finished job #{k_}: stored values differ from its own predictions on its own indices"
-                break
-        if bad:
+        if "rec" not in holder:
+            # the selector was not asked (or on_done failed before asking it): nothing to compare with the model
+            if res["outcome"] == "exc":
+                ck.fail(f"C20|never-fails|OnlineSelector.on_done|{tag}", "OnlineSelector: on_done raises", case, res["exc"])
+                return
+            ck.count("online:selector-not-called(model not asked)")
+        bad = _stored_predictions_problem(online, sub)
+        if bad and bad.startswith("bookkeeping:"):
+            ck.fail("C20|online-bookkeeping|OnlineSelector.on_done|", "y_predictors does not hold one entry per finished job", case, bad)
+        elif bad:
             ck.fail("C20|online-masked-predictions|OnlineSelector.on_done|jobs-with-different-y_pred_idx" if n_ok > 1 else
                     "C20|online-masked-predictions|OnlineSelector.on_done|", "OnlineSelector: a member is recorded as valid on "
                     "samples it never predicted (or with other values)", case, bad)
-        if res["outcome"] == "ok" and not opts["bagging"]:
+        if res["outcome"] in ("ok", "malformed") and not opts["bagging"]:
             direct = run_greedy(dict(sub, history=None), opts)
-            if direct["outcome"] != "ok" or list(direct["indices"]) != list(res["indices"]) or any(
-                    abs(a - b) > 1e-12 for a, b in zip(direct["weights"], res["weights"])):
-                ck.fail("C20|online-selection|OnlineSelector.on_done|", "OnlineSelector: selection differs from a direct select() on "
-                        "the jobs' own predictions", case,
-                        {"online": [list(res["indices"]), list(res["weights"])],
+            if (res["outcome"] != "ok" or direct["outcome"] != "ok" or direct["indices"] != res["indices"]
+                    or len(direct["weights"]) != len(res["weights"])
+                    or any(abs(a - b) > 1e-12 for a, b in zip(direct["weights"], res["weights"]))):
+                ck.fail(f"C20|online-selection|OnlineSelector.on_done|{tag}", "OnlineSelector: selection differs from a direct "
+                        "select() on the jobs' own predictions", case,
+                        {"online": [res.get("indices"), res.get("weights"), res.get("problem")],
                          "direct": [direct.get("indices"), direct.get("weights"), direct.get("exc")]})
-        _greedy_case(ck, d, sub, opts, label="online", res=res, verbose=verbose)
+        if "rec" in holder:
+            _greedy_case(ck, d, sub, opts, label="online", res=res, verbose=verbose)
         if res["outcome"] != "ok":
             break
-        ids = online.selected_predictors_job_ids
+        n_av = len(sub["preds"])
         ok_ids = [f"0.{i}" for i in range(j + 1) if i not in fail_at]
-        if ids != [ok_ids[i] for i in res["indices"]]:
-            ck.fail("C20|online-job-ids|OnlineSelector.selected_predictors_job_ids|", "job ids do not match the selected indexes", case)
-        # the ensemble handed out: the selected members, loaded in selected order, with the selected weights
-        ens = online.ensemble
-        if (ens is proto or getattr(ens, "tag", None) != "ensemble-prototype"
-                or list(ens.predictors) != [("loaded", i) for i in ids] or list(ens.weights) != list(res["weights"])
-                or proto.predictors is not None):
-            ck.fail("C20|online-ensemble|OnlineSelector.ensemble|", "ensemble does not hold the selected members with their weights",
-                    case, {"predictors": repr(getattr(ens, "predictors", None)), "weights": repr(getattr(ens, "weights", None))})
+        try:
+            ids = list(online.selected_predictors_job_ids)
+            want = [ok_ids[i] for i in res["indices"]] if all(0 <= i < n_av for i in res["indices"]) else None
+            if want is None or ids != want:
+                ck.fail("C20|online-job-ids|OnlineSelector.selected_predictors_job_ids|", "job ids do not match the selected indexes",
+                        case, {"job_ids": ids, "indexes": res["indices"], "finished": ok_ids})
+            # the ensemble handed out: the selected members, loaded in selected order, with the selected weights
+            ens = online.ensemble
+            if (ens is proto or getattr(ens, "tag", None) != "ensemble-prototype"
+                    or list(ens.predictors) != [("loaded", i) for i in ids] or [float(x) for x in ens.weights] != res["weights"]
+                    or proto.predictors is not None):
+                ck.fail("C20|online-ensemble|OnlineSelector.ensemble|", "ensemble does not hold the selected members with their weights",
+                        case, {"predictors": repr(getattr(ens, "predictors", None)), "weights": repr(getattr(ens, "weights", None))})
+        except Exception as e:  # noqa: BLE001 - reading the public results of the selection must not fail either
+            ck.fail("C20|online-job-ids|OnlineSelector.selected_predictors_job_ids|unreadable", "OnlineSelector: the selected job ids / "
+                    "ensemble cannot be read after a successful on_done", case, f"{type(e).__name__}: {str(e)[:160]}")
+            break
 
 
-def _online_topk_case(ck, d, task, k, fail_at, verbose=False):
+def _online_topk_case(ck, d, task, k, fail_at, prior=None, verbose=False):
     """OnlineSelector driving a TopKSelector: after every finished job the stored predictions must be valid exactly on
-    the job's own y_pred_idx and the selection must be the k lowest losses computed from the jobs' own predictions"""
+    the job's own y_pred_idx and the selection must be the k lowest losses computed from the jobs' own predictions;
+    `prior`: earlier sessions ({"task", "fail_at"}) the same TopKSelector object served through other OnlineSelector objects"""
     from deephyper.ensemble.selector import OnlineSelector, TopKSelector
 
-    y, preds = build(dict(task, masked=False, preds=[{k_: v for k_, v in p.items() if k_ != "mask"} for p in task["preds"]]))
-    S = task["S"]
-    case = {"kind": "online-topk", "task": task, "k": k, "fail_at": fail_at}
-    _, _, _, _, _, inner_loss = _make_env(task, preds, 0)
-    online = OnlineSelector(y, TopKSelector(inner_loss, k=k), None, lambda job_id: job_id)
-    for j, p in enumerate(task["preds"]):
-        if j in fail_at:
-            online.on_done(types.SimpleNamespace(id=f"0.{j}", output={"objective": "F_failed"}))
-            continue
-        rows = [s_ for s_ in range(S) if not (p.get("mask") or [False] * S)[s_]]
-        job = types.SimpleNamespace(id=f"0.{j}", output={"objective": 0.0, "online_selector": {"y_pred": preds[j][rows], "y_pred_idx": rows}})
-        sub = dict(task, preds=[q for i, q in enumerate(task["preds"][:j + 1]) if i not in fail_at])
-        ck.case({"kind": "online-topk", "task": sub, "k": k}, nontrivial=len(sub["preds"]) >= 2)
-        ck.count("online-topk:calls")
+    case = {"kind": "online-topk", "task": task, "k": k, "fail_at": sorted(fail_at)}
+    if prior:
+        case["prior"] = prior
+        ck.count(f"online-topk:reused-selector:earlier-sessions={len(prior)}")
+    tag = ",reused-selector" if prior else ""
+    _, _, _, _, _, inner_loss = _make_env(task, [], 0)
+    selector = TopKSelector(inner_loss, k=k)
+
+    def make_online(t):
+        return OnlineSelector(build(dict(t, masked=False, preds=[]))[0], selector, None, lambda job_id: job_id)
+
+    _run_prior_sessions(make_online, prior)
+    online = make_online(task)
+    for j, job, sub in _online_jobs(task, fail_at):
+        if sub is not None:
+            ck.case({"kind": "online-topk", "task": sub, "k": k, "prior": prior or []}, nontrivial=len(sub["preds"]) >= 2)
+            ck.count("online-topk:calls")
         try:
             online.on_done(job)
         except Exception as e:  # noqa: BLE001
-            ck.fail("C20|never-fails|OnlineSelector.on_done|selector=TopK", "OnlineSelector(TopK): on_done raises", case,
+            ck.fail(f"C20|never-fails|OnlineSelector.on_done|selector=TopK{tag}", "OnlineSelector(TopK): on_done raises", case,
                     f"{type(e).__name__}: {str(e)[:160]}")
             return
-        _, exp = build(sub)
-        for k_, (got_a, exp_a) in enumerate(zip(online.y_predictors, exp)):
-            gm, em = np.ma.getmaskarray(got_a), np.ma.getmaskarray(exp_a)
-            if gm.shape != em.shape or (gm != em).any() or not np.array_equal(np.ma.getdata(got_a)[~em], np.ma.getdata(exp_a)[~em]):
-                ck.fail("C20|online-masked-predictions|OnlineSelector.on_done|jobs-with-different-y_pred_idx",
-                        "OnlineSelector: a member is recorded as valid on samples it never predicted (or with other values)", case,
-                        f"finished job #{k_}: valid samples {np.nonzero(~gm.reshape(len(gm), -1).all(axis=1))[0].tolist()}, "
-                        f"its y_pred_idx {np.nonzero(~em.reshape(len(em), -1).all(axis=1))[0].tolist()}")
-                break
+        if sub is None:
+            continue
+        bad = _stored_predictions_problem(online, sub)
+        if bad and bad.startswith("bookkeeping:"):
+            ck.fail("C20|online-bookkeeping|OnlineSelector.on_done|selector=TopK", "y_predictors does not hold one entry per finished job",
+                    case, bad)
+        elif bad:
+            ck.fail("C20|online-masked-predictions|OnlineSelector.on_done|jobs-with-different-y_pred_idx",
+                    "OnlineSelector: a member is recorded as valid on samples it never predicted (or with other values)", case, bad)
         direct = run_topk(dict(sub, history=None), k)
-        got = (list(online.selected_predictors_indexes), list(online.selected_predictors_weights))
-        if direct["outcome"] != "ok" or (list(direct["indices"]), list(direct["weights"])) != got:
-            ck.fail("C20|online-selection|OnlineSelector.on_done|selector=TopK", "OnlineSelector(TopK): not the k lowest losses of the "
-                    "jobs' own predictions", case, {"online": got, "direct": [direct.get("indices"), direct.get("weights")]})
+        try:
+            gi, gw, problem = _norm_output((online.selected_predictors_indexes, online.selected_predictors_weights))
+        except Exception as e:  # noqa: BLE001
+            gi, gw, problem = None, None, f"the selection cannot be read ({type(e).__name__})"
+        if problem or direct["outcome"] != "ok" or (direct["indices"], direct["weights"]) != (gi, gw):
+            ck.fail(f"C20|online-selection|OnlineSelector.on_done|selector=TopK{tag}", "OnlineSelector(TopK): not the k lowest losses "
+                    "of the jobs' own predictions", case,
+                    {"online": [gi, gw, problem], "direct": [direct.get("indices"), direct.get("weights"), direct.get("exc")],
+                     "own_losses": direct.get("losses")})
         if verbose:
-            print("replay:", {"job": j, "online": got, "direct": direct.get("indices")})
+            print("replay:", {"job": j, "online": [gi, gw], "direct": direct.get("indices")})
 
 
 def _predictor_case(ck, d, order, use_predict=False, loader=False, fail=None, evaluator="scripted", history=None,
@@ -926,6 +1264,11 @@ def _predictor_case(ck, d, order, use_predict=False, loader=False, fail=None, ev
                                "loader" if loader else "", "member-raises" if fail is not None else "",
                                "reused-evaluator" if history else "") if x)
     seen_members = [m for _, m in res["seen"]]
+    if any(m is None for m in seen_members):
+        # the evaluator's jobs no longer identify their member: the completion order is unobservable, the model is not
+        # asked; the oracle (a statement about what is returned) still judges
+        ck.count("predictor:completion-order-unobservable(model not asked)")
+        seen_members = []
     ck.case(case, nontrivial=n >= 2 and seen_members != sorted(seen_members))
     ck.count(f"predictor:{mode}:members={n}")
     ck.count(f"predictor:evaluator={evaluator}{':loader' if loader else ''}{':member-raises' if fail is not None else ''}")
@@ -945,6 +1288,8 @@ def _predictor_case(ck, d, order, use_predict=False, loader=False, fail=None, ev
             fails.append(("member-order", f"member {fail} failed but the error names another one: {res['exc']}"))
     elif res["outcome"] == "exc":
         fails.append(("never-fails", res["exc"]))
+    elif res["outcome"] == "malformed":
+        fails.append(("member-order", f"what was returned are not the members' predictions: {res['malformed']}"))
     elif use_predict:
         w = res["weights"]
         exp = [sum(w[i] * v for i, v in enumerate(col)) / sum(w)
@@ -1002,9 +1347,9 @@ def _dispatch(ck, d, case, verbose=False):
     elif case["kind"] == "topk":
         _topk_case(ck, d, case["task"], case["k"], verbose=verbose)
     elif case["kind"] == "online-topk":
-        _online_topk_case(ck, d, case["task"], case["k"], set(case.get("fail_at", [])), verbose=verbose)
+        _online_topk_case(ck, d, case["task"], case["k"], set(case.get("fail_at", [])), prior=case.get("prior"), verbose=verbose)
     elif case["kind"] == "online":
-        _online_case(ck, d, case["task"], case["opts"], set(case.get("fail_at", [])), verbose=verbose)
+        _online_case(ck, d, case["task"], case["opts"], set(case.get("fail_at", [])), prior=case.get("prior"), verbose=verbose)
     else:
         _predictor_case(ck, d, case["finish_order"], case.get("use_predict", False), loader=case.get("loader", False),
                         fail=case.get("fail"), evaluator=case.get("evaluator", "scripted"), history=case.get("history"),
@@ -1016,8 +1361,11 @@ def run(ck):
     ck.rule = ("generated: 1..12 candidates x (k, k_init, max_it, eps_tol, with_replacement, early_stopping, bagging) x "
                "regression (mean/normal aggregator; squared/absolute/NLL loss) and classification (categorical/mode aggregator; "
                "0-1/cross-entropy loss) x plain/row-masked predictions, duplicate candidates for ties; TopK with k below/above n; "
-               "histories: one TopK / Greedy selector object serving 2..4 select() calls on different candidate sets, the last judged "
-               "like a call on a fresh selector; OnlineSelector fed job by job (failed jobs interleaved); EnsemblePredictor with every finish order of <=4 (quick) / "
+               "histories: one TopK / Greedy selector object serving 2..4 select() calls, each derived from the one before (unrelated "
+               "candidates of smaller / equal / larger number, the same candidates permuted, the same candidates against another target, "
+               "the list grown by appending, a sub-list, the same call again), EVERY call judged like a call on a fresh selector against "
+               "the candidates' own losses of that call; OnlineSelector fed job by job (failed jobs interleaved), its inner selector "
+               "object possibly reused from an earlier session; EnsemblePredictor with every finish order of <=4 (quick) / "
                "<=5 (thorough) members; non-trivial = >=2 candidates and at least one greedy iteration / k<n / completion out of order")
     ck.assumptions = [
         "loss function and aggregator are environment: the model's aggregated loss is an arbitrary function of the multiset of members "
@@ -1055,12 +1403,13 @@ def run(ck):
                         eps_tol=rng.choice([1e-3, 2.0 ** -10]), max_it=rng.choice([-1, -1, 3]))
             _greedy_case(ck, d, task, opts, label="compensating")
         # histories: one selector object serving several select() calls (TopK / Greedy keep no state by contract)
-        for _ in range(ck.pick(150, 2500)):
+        for _ in range(ck.pick(150, 2000)):
             n = rng.choice([1, 2, 3, 4, 5, 6, 8, 12])
             _greedy_case(ck, d, gen_with_history(rng, n), gen_opts(rng, n))
-        for _ in range(ck.pick(60, 800)):
-            n = rng.choice([1, 2, 3, 5, 8, 12])
-            _topk_case(ck, d, gen_with_history(rng, n), rng.choice([1, 2, 3, 5, 8]))
+        for _ in range(ck.pick(150, 1500)):
+            n = rng.choice([1, 2, 3, 4, 5, 6, 8, 12])
+            _topk_case(ck, d, gen_with_history(rng, n), rng.choice([1, 1, 2, 2, 3, 5, 8]))
+        prev_online = {}  # selector kind -> the previous generated session (served again, first, by the next one's selector)
         for _ in range(ck.pick(60, 700)):
             n = rng.choice([1, 2, 3, 4, 5, 6, 8])
             task = gen_task(rng, n)
@@ -1089,11 +1438,16 @@ def run(ck):
                 p_["mask"] = mk
             task["masked"] = True
             ck.count("online:y_pred_idx-pattern=" + pattern)
-            if rng.random() < 0.35:
-                _online_topk_case(ck, d, task, rng.choice([1, 2, 3, 5]), {i for i in range(n) if rng.random() < 0.15})
-                continue
+            # histories on the inner selector object: with probability 1/2 the selector first serves the previous generated
+            # session (another search, another validation set: other y, other number of jobs) through another OnlineSelector
             fail_at = {i for i in range(n) if rng.random() < 0.15}
-            _online_case(ck, d, task, gen_opts(rng, n), fail_at)
+            kind_ = "topk" if rng.random() < 0.35 else "greedy"
+            prior = [prev_online[kind_]] if kind_ in prev_online and rng.random() < 0.5 else None
+            prev_online[kind_] = {"task": task, "fail_at": sorted(fail_at)}
+            if kind_ == "topk":
+                _online_topk_case(ck, d, task, rng.choice([1, 2, 3, 5]), fail_at, prior=prior)
+                continue
+            _online_case(ck, d, task, gen_opts(rng, n), fail_at, prior=prior)
         # EnsemblePredictor: every finish order, for predictions_from_predictors AND for predict() end to end
         nmax = ck.pick(4, 5)
         for n in range(1, nmax + 1):
